@@ -35,6 +35,13 @@ pub fn validators() -> Vec<VDef> {
         VDef { module: "vb", name: "two", params: vec![o(Ty::Int), Ty::Tuple(vec![Ty::Int, Ty::Bool])] },
         VDef { module: "vb", name: "rec_data", params: vec![Ty::Adt("Rec"), Ty::Data] },
         VDef { module: "vb", name: "same_type_twice", params: vec![Ty::Int, Ty::Int] },
+        // further parameter shapes: a map, nested containers, a recursive type, a generic
+        // instance, Bool/Void, four parameters
+        VDef { module: "vc", name: "map_bool", params: vec![l(Ty::Pair(Rc::new(Ty::Int), Rc::new(Ty::Bytes))), Ty::Bool] },
+        VDef { module: "vc", name: "nested", params: vec![l(o(Ty::Int)), Ty::Tuple(vec![Ty::Int, Ty::Bool, Ty::Bytes])] },
+        VDef { module: "vc", name: "shapes", params: vec![Ty::Adt("Shape"), o(Ty::Adt("Rec"))] },
+        VDef { module: "vc", name: "tree_box", params: vec![Ty::Adt("Tree"), Ty::Adt("BoxInt")] },
+        VDef { module: "vc", name: "four", params: vec![Ty::Bool, Ty::Void, Ty::Int, l(Ty::Bytes)] },
     ]
 }
 
@@ -60,7 +67,7 @@ pub fn source_for_module(module: &str) -> String {
 }
 
 pub fn build_initial() -> Result<String, String> {
-    let sc = Scratch::new("c18", &[("validators/va.ak".to_string(), source_for("va")), ("validators/vb.ak".to_string(), source_for("vb"))]);
+    let sc = Scratch::new("c18", &[("validators/va.ak".to_string(), source_for("va")), ("validators/vb.ak".to_string(), source_for("vb")), ("validators/vc.ak".to_string(), source_for("vc"))]);
     sc.build(silent())
 }
 
